@@ -43,7 +43,8 @@ where
         Err(_) => "panic".to_string(),
     };
     let second = match catch_unwind(AssertUnwindSafe(|| {
-        let mut buf: Vec<F> = vec![F::zero(); d.sample_len()];
+        // a REUSED buffer: pre-filled with a value no sample can contain, so stale slots are visible
+        let mut buf: Vec<F> = vec![F::from(7.0).unwrap(); d.sample_len()];
         d.sample_to_slice(&mut rng2, &mut buf[..]);
         buf
     })) {
@@ -87,4 +88,50 @@ pub fn line(toks: &[&str]) -> String {
         "f64" => run::<f64>(family, &ps, &mut rng),
         other => format!("badtype:{}", other),
     }
+}
+
+
+/// manyv: n seeded samples of a vector sampler; norm / simplex predicate on each (property C12 / C11 bulk oracle)
+/// `manyv <family> <f32|f64> <params|-> <seedhex> <n>` -> `n=.. bad=.. nan=.. maxdev=<ulp> first=<seed:values>`
+pub fn manyv(toks: &[&str]) -> String {
+    fn go<F: FB + Default + SampleUniform>(family: &str, ps: &[&str], seed: u64, n: u64) -> String
+    where
+        StandardNormal: Distribution<F>, Exp1: Distribution<F>, Open01: Distribution<F>,
+    {
+        let eps = F::epsilon().to64();
+        let p: Vec<F> = ps.iter().map(|s| F::from_hex(s)).collect();
+        let dir = if family == "dirichlet" { match Dirichlet::new(&p) { Ok(d) => Some(d), Err(e) => return format!("E:{:?}", e) } } else { None };
+        let (mut bad, mut nan, mut maxdev) = (0u64, 0u64, 0f64);
+        let mut first: Option<String> = None;
+        let mut st = seed;
+        for _ in 0..n {
+            st = st.wrapping_add(0x9E3779B97F4A7C15);
+            let mut rng = ScriptRng::new(vec![], st);
+            rng.limit = 1_000_000;
+            let v: Vec<f64> = match family {
+                "unitcircle" => { let a: [F; 2] = UnitCircle.sample(&mut rng); a.iter().map(|x| x.to64()).collect() }
+                "unitdisc" => { let a: [F; 2] = UnitDisc.sample(&mut rng); a.iter().map(|x| x.to64()).collect() }
+                "unitsphere" => { let a: [F; 3] = UnitSphere.sample(&mut rng); a.iter().map(|x| x.to64()).collect() }
+                "unitball" => { let a: [F; 3] = UnitBall.sample(&mut rng); a.iter().map(|x| x.to64()).collect() }
+                _ => dir.as_ref().unwrap().sample(&mut rng).iter().map(|x| x.to64()).collect(),
+            };
+            let isnan = v.iter().any(|x| x.is_nan());
+            let (dev, ok) = if family == "dirichlet" {
+                let s: f64 = v.iter().sum();
+                let d = (s - 1.0).abs() / eps;
+                (d, d <= 4.0 * v.len() as f64 && v.iter().all(|x| *x >= 0.0 && *x <= 1.0))
+            } else {
+                let nrm = v.iter().map(|x| x * x).sum::<f64>().sqrt();
+                let d = (nrm - 1.0).abs() / eps;
+                if family == "unitcircle" || family == "unitsphere" { (d, d <= 4.0) } else { (0.0, nrm <= 1.0 + 2.0 * eps) }
+            };
+            if isnan { nan += 1; } else if !ok { bad += 1; } else if dev > maxdev { maxdev = dev; }
+            if (isnan || !ok) && first.is_none() { first = Some(format!("{:x}:{:?}", st, v)); }
+        }
+        format!("n={} bad={} nan={} maxdev={:.2} first={}", n, bad, nan, maxdev, first.unwrap_or_else(|| "-".into()).replace(' ', ""))
+    }
+    let ps: Vec<&str> = if toks[3] == "-" { vec![] } else { toks[3].split(',').collect() };
+    let seed = u64::from_str_radix(toks[4], 16).expect("seed");
+    let n: u64 = toks[5].parse().expect("n");
+    if toks[2] == "f32" { go::<f32>(toks[1], &ps, seed, n) } else { go::<f64>(toks[1], &ps, seed, n) }
 }
